@@ -10,6 +10,7 @@ import (
 	"github.com/rs/zerolog"
 	"github.com/vektra/mockery/v3/config"
 	"github.com/vektra/mockery/v3/internal/stackerr"
+	"github.com/vektra/mockery/v3/template_funcs"
 	"golang.org/x/tools/go/packages"
 )
 
@@ -52,9 +53,17 @@ func NewMethodScope(r *Registry) *MethodScope {
 // This method is not meant to be used directly by templates.
 func (m *MethodScope) ResolveVariableNameCollisions(ctx context.Context) {
 	log := zerolog.Ctx(ctx)
+	// Templates derive struct field names from the exported form of a variable
+	// name (the call records of the matryer template), so two variables whose
+	// names differ only in that form ("t" and "T", "id" and "Id") collide too.
+	exportedNames := map[string]bool{}
 	for _, v := range m.vars {
 		varLog := log.With().Str("variable-name", v.Name).Logger()
 		newName := m.SuggestName(v.Name)
+		for i := 1; exportedNames[template_funcs.Exported(newName)]; i++ {
+			newName = m.SuggestName(fmt.Sprintf("%s%d", v.Name, i))
+		}
+		exportedNames[template_funcs.Exported(newName)] = true
 		if newName != v.Name {
 			varLog.Debug().Str("new-name", newName).Msg("variable was found to conflict with previously allocated name. Giving new name.")
 		}
